@@ -324,10 +324,11 @@ public:
 	*/
 	void copy(const Array& b)
 	{
-		int n = b.length();
+		Array src(b); // holds b's block: b may be stored inside an element of this array, which resize() destroys or moves
+		int n = src.length();
 		resize(n);
 		for (int i = 0; i<n; i++)
-			_a[i] = b._a[i];
+			_a[i] = src._a[i];
 	}
 
 	/**
@@ -456,9 +457,13 @@ public:
 	Array& append(const Array& b)
 	{
 		int n=length(), nb=b.length(); // b may be this same array: its length changes in resize()
+		const T* p = b._a; // and b may be stored inside an element of this array (a.append(a[0].children)), which resize() moves
+		bool self = (p == _a);
 		resize(n+nb);
+		if (self)
+			p = _a;
 		for (int i=0; i<nb; i++)
-			_a[n+i] = b[i];
+			_a[n+i] = p[i];
 		return *this;
 	}
 	/**
